@@ -81,8 +81,8 @@ PLAN = {
         "prop": [],
         "mc_quick": ["CfgsQ1"],
         "vacuity": [("DevEstab", "CfgsQ1", "StreamOwned")],
-        "scen_quick": ["h1-max1-AA", "h1-tls-max1-AAB", "h2-max1-AAB", "tun-max1-AAB", "socks-max1-AAB", "h2-max1-AA"],
-        "scen_thorough": ["h1-max1-A", "h1-max1-AA", "h1-max1-AAB", "h1-tls-max1-AAB", "h1-max1-close", "h1-max1-abandon", "h1-max2-ABC-keep0", "h2-max1-AAB", "h2-max1-AA", "tun-max1-AAB", "fwd-max1-AAB", "socks-max1-AAB"],
+        "scen_quick": ["h1-max1-AA", "h1-tls-max1-AAB", "h2-max1-AAB", "tun-max1-AAB", "socks-max1-AAB", "h2-max1-AA", "h1-max1-upgrade"],
+        "scen_thorough": ["h1-max1-A", "h1-max1-AA", "h1-max1-AAB", "h1-tls-max1-AAB", "h1-max1-close", "h1-max1-abandon", "h1-max2-ABC-keep0", "h2-max1-AAB", "h2-max1-AA", "tun-max1-AAB", "fwd-max1-AAB", "socks-max1-AAB", "h1-max1-upgrade"],
         "strategies": ["base", "fault", "cancel-scope", "cancel-native", "poolclose"],
     },
     "C07": {
@@ -104,7 +104,7 @@ PLAN = {
         "prop": [],
         "mc_quick": [("CfgsQ1", {"maxclock": 1})],
         "vacuity": [("DevIdle", "CfgsQ1", "ReuseGate"), ("DevIdle", "CfgsQ1", "OwnResponse")],
-        "scen_quick": ["h1-max1-abandon", "h1-max1-close", "h1-max1-early", "h1-max1-mixed-ends", "h1-max1-interim"],
+        "scen_quick": ["h1-max1-abandon", "h1-max1-close", "h1-max1-early", "h1-max1-mixed-ends", "h1-max1-interim", "h1-max1-upgrade"],
         "scen_thorough": ["h1-max1-abandon", "h1-max1-close", "h1-max1-http10", "h1-max1-early", "h1-max1-mixed-ends", "h1-max1-interim", "h1-max2-AAAB-mixed", "h1-max1-AAB", "h1-max2-AAAA"],
         "strategies": ["base", "dfs", "fault", "cancel-scope", "sequential"],
     },
